@@ -39,6 +39,9 @@ def build_native(inst, wd, sanitize, from_ir=None):
     defs = ['-D%s=%s' % (k, v) for k, v in inst.get('defs', {}).items()]
     for s in inst.get('shims', []):
         incs.insert(0, '-I' + os.path.join(engine.ROOT, 'shim', s))
+    pre = []
+    for x in inst.get('preinclude', []):
+        pre += ['-include', os.path.join(engine.ROOT, x)]
     if from_ir:
         ll2 = os.path.join(wd, 'h_yield.ll')
         instrument_ll(from_ir, ll2)
@@ -56,7 +59,7 @@ def build_native(inst, wd, sanitize, from_ir=None):
         srcs = [src, rt] + [os.path.join(engine.REPO, s) for s in inst.get('repo_sources', [])]
         for x in inst.get('native_extra', []):
             srcs.append(os.path.join(engine.ROOT, x))
-        cmd = ['clang++-14'] + flags + defs + incs + srcs + ['-Wl,--wrap=syscall,--wrap=malloc,--wrap=free', '-lpthread', '-o', exe]
+        cmd = ['clang++-14'] + flags + pre + defs + incs + srcs + ['-Wl,--wrap=syscall,--wrap=malloc,--wrap=free', '-lpthread', '-o', exe]
     rc, out, err, t = engine.sh(cmd, timeout=600)
     if rc != 0:
         return None, 'native build failed: ' + err[-1500:]
@@ -85,6 +88,8 @@ def replay_failure(inst, prep_ll, wd, failure, out_path):
     env['VF_SCHED'] = ' '.join(str(x) for x in sched) if concurrent else ''
     env['ASAN_OPTIONS'] = 'detect_leaks=1:abort_on_error=0:exitcode=23'
     env['UBSAN_OPTIONS'] = 'halt_on_error=1:exitcode=24'
+    if inst.get('engine') == 'cbmc-seq':
+        env['VF_SCHED_POINTS'] = '1'
     env['VF_KEEP_GOING'] = '1'  # report every failing vf_check of the run, not only the first
     rc, out, errt, t = engine.sh([exe], timeout=60, env=env)
     tail = (errt or '')[-1200:]
